@@ -208,6 +208,15 @@ def c09(res, r):
     evs = [o[1][1] for _, o in fl if o[0] == 'ev' and not isinstance(o[1], str) and o[1][0] == 'message']
     if len(set(evs)) != len(evs):
         viol(res, r, 'a MESSAGE from the server fired its event more than once', 'receive-once', events=evs[:8])
+    dead = set()             # messages that follow a CLOSE packet in the same payload: the connection has ended when they are reached
+    for step, op in enumerate(r.log):
+        pk = pkts_of(op)
+        if any(p[0] == 'close' for p in pk):
+            k = [p[0] for p in pk].index('close')
+            dead |= {p[1] for p in pk[k + 1:] if p[0] == 'msg'}
+    if any(m in dead for m in evs):
+        viol(res, r, 'a MESSAGE that follows a CLOSE packet in the same payload was delivered to the handler (the connection had ended)', 'receive-after-close',
+             events=[m for m in evs if m in dead][:8])
     dpos = {m: k for k, m in enumerate(delivered)}
     if any(m not in dpos for m in evs):
         viol(res, r, 'a message event for something the server did not send', 'receive-origin', events=evs[:8])
